@@ -39,8 +39,7 @@ Proof.
   - cbn [parse target_resolve]. destruct (map parse l) eqn:E; [cbn; discriminate|]. rewrite <- E.
     apply arr_loop_no_inexact; [|discriminate]. apply Forall_forall. intros v Hv.
     apply in_map_iff in Hv as [x [<- Hx]]. rewrite Forall_forall in IH. apply IH. exact Hx.
-  - cbn [parse]. destruct (consistent_keys (map fst kvs)); [|cbn; discriminate].
-    cbn [target_resolve]. apply obj_loop_no_inexact.
+  - cbn [parse]. cbn [target_resolve]. apply obj_loop_no_inexact.
     + match goal with |- snd (if ?c then _ else _) <> _ => destruct c end; cbn; discriminate.
     + apply Forall_forall. intros kv Hkv. apply in_map_iff in Hkv as [x [<- Hx]]. cbn [snd].
       rewrite Forall_forall in IH. apply (IH x Hx).
@@ -58,11 +57,10 @@ Proof.
 Qed.
 
 Lemma imports_exports_no_inexact mk kvs url imp conds :
-  consistent_keys (map fst kvs) = true ->
   forallb (fun kv => key_ok mk (fst kv)) kvs = true ->
   snd (imports_exports_resolve mk (parse (JObj kvs)) url imp conds) <> SInexact.
 Proof.
-  intros Hcons Hkeys. cbn [parse]. rewrite Hcons. fold pp.
+  intros Hkeys. cbn [parse]. fold pp.
   unfold imports_exports_resolve. cbn [map_data expansion_keys].
   match goal with |- snd (match ?e with Some _ => _ | None => _ end) <> _ => destruct e as [tg|] eqn:Ee end.
   - (* an exact key: its value is the parse of a JSON value *)
@@ -80,26 +78,25 @@ Qed.
 
 Lemma exports_resolve_no_inexact j sub conds :
   in_scope_exports j sub = true ->
-  snd (exports_resolve slash_s sub (parse j) conds) <> SInexact.
+  snd (exports_resolve slash_s sub (parse_top j) conds) <> SInexact.
 Proof.
   unfold in_scope_exports. intros H. apply andb_true_iff in H as [H Hkeys].
   apply andb_true_iff in H as [_ Hok].
   destruct j as [| t | l | kvs |].
   - cbn. destruct (str_eqb sub [ch_dot]); cbn; discriminate.
-  - cbn [parse exports_resolve]. destruct (str_eqb sub [ch_dot]); [|cbn; discriminate].
+  - cbn [parse_top parse exports_resolve]. destruct (str_eqb sub [ch_dot]); [|cbn; discriminate].
     match goal with |- snd (if ?c then _ else _) <> _ => destruct c end; [cbn; discriminate|].
     apply (target_resolve_no_inexact slash_s [] false false conds (JStr t)).
-  - change (parse (JArr l)) with (PArr (map parse l)). cbn [exports_resolve].
+  - change (parse_top (JArr l)) with (PArr (map parse l)). cbn [exports_resolve].
     destruct (str_eqb sub [ch_dot]); [|cbn; discriminate].
     match goal with |- snd (if ?c then _ else _) <> _ => destruct c end; [cbn; discriminate|].
     apply (target_resolve_no_inexact slash_s [] false false conds (JArr l)).
-  - rewrite json_ok_obj in Hok. apply andb_true_iff in Hok as [Hobj _].
-    rewrite obj_ok_old in Hobj. apply andb_true_iff in Hobj as [Hobj _]. apply andb_true_iff in Hobj as [Hcons _].
-    cbn [top_keys] in Hkeys.
-    pose proof (imports_exports_no_inexact sub kvs slash_s false conds Hcons Hkeys) as HI.
+  - cbn [top_keys] in Hkeys. unfold parse_top.
+    destruct (consistent_keys (map fst kvs)); [|cbn; discriminate].
+    pose proof (imports_exports_no_inexact sub kvs slash_s false conds Hkeys) as HI.
     assert (Hp : parse (JObj kvs) = PObj (map pp kvs)
                    (isort_by less (filter (fun e => is_expansion_key (fst e)) (map pp kvs)))).
-    { cbn [parse]. rewrite Hcons. reflexivity. }
+    { reflexivity. }
     rewrite Hp, exports_resolve_obj. cbv zeta. rewrite <- Hp.
     destruct (str_eqb sub [ch_dot]).
     + match goal with |- snd (match ?m with _ => _ end) <> _ => destruct m eqn:Em end; try (cbn; discriminate).
@@ -165,10 +162,10 @@ Proof.
   cbn [first_some]. rewrite (H q (or_introl eq_refl)). apply IH. intros q' Hq. apply H. right. exact Hq.
 Qed.
 
-Lemma parse_root_some j : j <> JNull -> parse_root j = Some (parse j).
+Lemma parse_root_some j : j <> JNull -> parse_root j = Some (parse_top j).
 Proof.
   intros H. unfold parse_root. destruct j; try reflexivity; [contradiction|].
-  cbn [parse]. destruct (consistent_keys (map fst kvs)); reflexivity.
+  unfold parse_top. destruct (consistent_keys (map fst kvs)); reflexivity.
 Qed.
 
 (* esmResolveAlgorithm + finalizeImportsExportsResult vs RESOLVE_ESM_MATCH o PACKAGE_EXPORTS_RESOLVE *)
@@ -183,7 +180,7 @@ Proof.
   pose proof (exports_resolve_no_inexact ex sub (conds_of k user) Hsc) as Hni.
   rewrite (node_exports_resolve_ext _ _ ex sub Hc) in Heq.
   change (exports_resolve [ch_slash]) with (exports_resolve slash_s).
-  destruct (exports_resolve slash_s sub (parse ex) (conds_of k user)) as [res st].
+  destruct (exports_resolve slash_s sub (parse_top ex) (conds_of k user)) as [res st].
   destruct (node_exports_resolve ex sub conds_n) as [u|s|e|]; cbn [RESOLVE_ESM_MATCH coarse] in *.
   - (* resolved *)
     assert (Hst : res = u /\ (st = SExact \/ st = SExactEndsWithStar)).
@@ -245,18 +242,17 @@ Proof.
 Qed.
 
 Lemma imports_resolve_no_inexact j sp conds :
-  in_scope_imports j sp = true -> snd (imports_resolve sp (parse j) conds) <> SInexact.
+  in_scope_imports j sp = true -> snd (imports_resolve sp (parse_top j) conds) <> SInexact.
 Proof.
   unfold in_scope_imports. intros H. apply andb_true_iff in H as [H Hkeys].
-  apply andb_true_iff in H as [H _]. apply andb_true_iff in H as [_ Hok].
+  apply andb_true_iff in H as [H Hmix]. apply negb_true_iff in Hmix.
   destruct j as [| t | l | kvs |]; try (cbn; discriminate).
-  rewrite json_ok_obj in Hok. apply andb_true_iff in Hok as [Hobj _].
-  rewrite obj_ok_old in Hobj. apply andb_true_iff in Hobj as [Hobj _]. apply andb_true_iff in Hobj as [Hcons _].
-  cbn [top_keys] in Hkeys.
-  pose proof (imports_exports_no_inexact sp kvs slash_s true conds Hcons Hkeys) as HI.
+  cbn [shape_imports_top_mixed] in Hmix. apply negb_false_iff in Hmix.
+  cbn [top_keys] in Hkeys. unfold parse_top. rewrite Hmix.
+  pose proof (imports_exports_no_inexact sp kvs slash_s true conds Hkeys) as HI.
   assert (Hp : parse (JObj kvs) = PObj (map pp kvs)
                  (isort_by less (filter (fun e => is_expansion_key (fst e)) (map pp kvs)))).
-  { cbn [parse]. rewrite Hcons. reflexivity. }
+  { reflexivity. }
   rewrite Hp, imports_resolve_obj. cbv zeta. rewrite <- Hp.
   match goal with |- snd (if ?c then _ else _) <> _ => destruct c end; [cbn; discriminate|exact HI].
 Qed.
